@@ -19,8 +19,10 @@ RULE = (
     "(thorough: all base blobs; quick: all bits of 8 base blobs incl. one nonce + one ECDH per layout, and a stratified 1/16 of the others), every "
     "truncation, every single-byte deletion, DER-field-boundary substitutions / insertions / duplications, ciphertext<->tag swaps, content moved between "
     "envelope and trailer, multi-site random mutations. distinct = digest of the mutated bytes; non-trivial = mutation inside the CMS structure (not appended garbage)"
+    " Also: contents of 64 KiB .. 3 MiB (thorough 64 MiB) around 2^16/2^20/2^24 with flips at chunk boundaries, tag, wrapped CEK, nonce; base blobs whose plaintext is itself a blob; interleaved-* shards (valid blob of A then altered blob of B of the same length on one cache); algorithm substitutions."
 )
 ASSUMPTIONS = [
+    "alterations = flips, substitutions, insertions, deletions, truncations, multi-site and consistent structural rewrites of a valid blob by a party that does not re-encrypt; producing a NEW blob under a KEK the producer can compute (public-key mode has no origin authentication; a degenerate DH value makes the KEK public) is creating, not altering, and is outside the statement",
     "correct key material = the offline root key of the base blob; the audit-hook network guard classifies attempts to reach a DC",
     "a run in which no mutation is benign, or every mutation fails at the first parser step, would be inconclusive (outcome histogram is checked)",
 ]
